@@ -246,7 +246,49 @@ func (p *parser) parseRegexpLabelParser() (*RegexpLabelParser, error) {
 	}, nil
 }
 
-func (p *parser) parseLabelPredicate() (pred LabelPredicate, _ error) {
+// parseLabelPredicate parses label filter expression.
+//
+// Explicit "and" binds tighter than "or". Comma and juxtaposition
+// join a predicate with everything that follows.
+func (p *parser) parseLabelPredicate() (LabelPredicate, error) {
+	left, err := p.parseLabelPredicateAnd()
+	if err != nil {
+		return nil, err
+	}
+
+	if t := p.peek(); t.Type != lexer.Or {
+		return left, nil
+	}
+	// Consume "or".
+	p.next()
+
+	right, err := p.parseLabelPredicate()
+	if err != nil {
+		return nil, err
+	}
+	return &LabelPredicateBinOp{Left: left, Op: OpOr, Right: right}, nil
+}
+
+func (p *parser) parseLabelPredicateAnd() (LabelPredicate, error) {
+	left, err := p.parseLabelPredicateOperand()
+	if err != nil {
+		return nil, err
+	}
+
+	if t := p.peek(); t.Type != lexer.And {
+		return left, nil
+	}
+	// Consume "and".
+	p.next()
+
+	right, err := p.parseLabelPredicateAnd()
+	if err != nil {
+		return nil, err
+	}
+	return &LabelPredicateBinOp{Left: left, Op: OpAnd, Right: right}, nil
+}
+
+func (p *parser) parseLabelPredicateOperand() (pred LabelPredicate, _ error) {
 	switch t := p.next(); t.Type {
 	case lexer.OpenParen:
 		lp, err := p.parseLabelPredicate()
@@ -374,19 +416,11 @@ func (p *parser) parseLabelPredicate() (pred LabelPredicate, _ error) {
 		return nil, p.unexpectedToken(t)
 	}
 
-	var binOp BinOp
-	switch nextTok := p.next(); nextTok.Type {
+	switch nextTok := p.peek(); nextTok.Type {
 	case lexer.Ident:
-		p.unread()
-		binOp = OpAnd
-	case lexer.Comma, lexer.And:
-		binOp = OpAnd
-	case lexer.Or:
-		binOp = OpOr
-	case lexer.EOF:
-		return pred, nil
+	case lexer.Comma:
+		p.next()
 	default:
-		p.unread()
 		return pred, nil
 	}
 
@@ -394,7 +428,7 @@ func (p *parser) parseLabelPredicate() (pred LabelPredicate, _ error) {
 	if err != nil {
 		return nil, err
 	}
-	return &LabelPredicateBinOp{Left: pred, Op: binOp, Right: right}, nil
+	return &LabelPredicateBinOp{Left: pred, Op: OpAnd, Right: right}, nil
 }
 
 func (p *parser) parseLabelFormatExpr() (lf *LabelFormatExpr, err error) {
